@@ -8,8 +8,13 @@ import (
 	"fmt"
 	"strings"
 
+	"regexp"
+	"strconv"
+
 	"github.com/gogpu/naga"
+	"github.com/gogpu/naga/hlsl"
 	"github.com/gogpu/naga/ir"
+	"github.com/gogpu/naga/msl"
 	"github.com/gogpu/naga/spirv"
 )
 
@@ -102,6 +107,7 @@ type c07gen struct {
 	c       *ctx
 	structs []*lty
 	f16     bool
+	paths   []lpath
 }
 
 func (g *c07gen) scalar(allowF16 bool) string {
@@ -199,6 +205,61 @@ func (t *lty) sexp() string {
 	}
 }
 
+// A path from the buffer variable down to one scalar (or atomic) leaf.
+type lpath struct {
+	wgsl string // e.g. ".m1[2].m0[1].y"
+	sexp string // (p (m 1) (i 2) (m 0) (x 1) (c 1))
+	leaf *lty
+}
+
+func (g *c07gen) path(t *lty) lpath {
+	var w, s strings.Builder
+	s.WriteString("(p")
+	for {
+		switch t.kind {
+		case "struct":
+			k := g.c.rng.Intn(len(t.members))
+			fmt.Fprintf(&w, ".m%d", k)
+			fmt.Fprintf(&s, " (m %d)", k)
+			t = t.members[k].ty
+			continue
+		case "arr":
+			n := t.count
+			if n == 0 {
+				n = 4
+			}
+			k := g.c.rng.Intn(n)
+			fmt.Fprintf(&w, "[%d]", k)
+			fmt.Fprintf(&s, " (i %d)", k)
+			t = t.elem
+			continue
+		case "mat":
+			k := g.c.rng.Intn(t.c)
+			fmt.Fprintf(&w, "[%d]", k)
+			fmt.Fprintf(&s, " (x %d)", k)
+			t = &lty{kind: "vec", n: t.r, sc: t.sc}
+			continue
+		case "vec":
+			k := g.c.rng.Intn(t.n)
+			fmt.Fprintf(&w, ".%c", "xyzw"[k])
+			fmt.Fprintf(&s, " (c %d)", k)
+			t = &lty{kind: "scalar", sc: t.sc}
+			continue
+		}
+		break
+	}
+	s.WriteString(")")
+	return lpath{wgsl: w.String(), sexp: s.String(), leaf: t}
+}
+
+func (p lpath) store() string {
+	lit := map[string]string{"f32": "1.0", "i32": "1i", "u32": "1u", "f16": "1.0h"}[p.leaf.sc]
+	if p.leaf.kind == "atomic" {
+		return fmt.Sprintf("atomicStore(&buf%s, %s);", p.wgsl, lit)
+	}
+	return fmt.Sprintf("buf%s = %s;", p.wgsl, lit)
+}
+
 func (g *c07gen) source(top *lty, space string) string {
 	var b strings.Builder
 	if g.f16 {
@@ -228,7 +289,11 @@ func (g *c07gen) source(top *lty, space string) string {
 	}
 	fmt.Fprintf(&b, "@group(0) @binding(0) var<%s> buf: %s;\n", space, top.name)
 	b.WriteString("@group(0) @binding(1) var<storage, read_write> sink: array<u32>;\n")
-	b.WriteString("@compute @workgroup_size(1) fn main() { sink[0] = arrayLength(&sink); }\n")
+	b.WriteString("@compute @workgroup_size(1) fn main() {\n  sink[0] = arrayLength(&sink);\n")
+	for _, p := range g.paths {
+		b.WriteString("  " + p.store() + "\n")
+	}
+	b.WriteString("}\n")
 	return b.String()
 }
 
@@ -305,14 +370,22 @@ func u32s(xs []uint32) string {
 
 func cmdC07(c *ctx) {
 	for i := 0; i < c.n; i++ {
-		g := &c07gen{c: c, f16: c.chance(0.15)}
+		g := &c07gen{c: c, f16: c.chance(0.3)}
 		depth := 1 + c.rng.Intn(3)
 		top := g.strct(depth, true)
 		space := "storage, read_write"
+		np := 1 + c.rng.Intn(8)
+		ps := ""
+		for k := 0; k < np; k++ {
+			p := g.path(top)
+			g.paths = append(g.paths, p)
+			ps += " " + p.sexp
+		}
 		src := g.source(top, space)
-		c.line("cases.txt", fmt.Sprintf("(c07 %s)", top.sexp()))
-		res := c07run(src)
+		c.line("cases.txt", fmt.Sprintf("(c07 %s (paths%s))", top.sexp(), ps))
+		res, mslDecls := c07run(src, np)
 		c.line("impl.txt", res)
+		c.line("msl.txt", mslDecls)
 		c.line("src.txt", q(src))
 		c.count(fmt.Sprintf("depth=%d", depth))
 		c.count(fmt.Sprintf("structs=%d", len(g.structs)))
@@ -326,15 +399,112 @@ func cmdC07(c *ctx) {
 }
 
 // c07run returns one canonical line: "ir=[..] spv=[..]" or "error <stage>: msg".
-func c07run(src string) string {
+func c07run(src string, npaths int) (string, string) {
 	ast, err := naga.Parse(src)
 	if err != nil {
-		return "error parse: " + oneLine(err.Error())
+		return "error parse: " + oneLine(err.Error()), "(none)"
 	}
 	m, err := naga.LowerWithSource(ast, src)
 	if err != nil {
-		return "error lower: " + oneLine(err.Error())
+		return "error lower: " + oneLine(err.Error()), "(none)"
 	}
+	out := c07runIR(m)
+	// HLSL: byte offsets of the stores, in statement order
+	hs := ""
+	if r := guard("hlsl", func() error {
+		s, _, err := hlsl.Compile(m, hlsl.DefaultOptions())
+		hs = s
+		return err
+	}); r.err != "" {
+		out += " hlsl=error " + oneLine(r.err)
+	} else {
+		out += " hlsl=" + hlslOffsets(hs, npaths)
+	}
+	ms := ""
+	decls := "(none)"
+	if r := guard("msl", func() error {
+		s, _, err := msl.Compile(m, msl.DefaultOptions())
+		ms = s
+		return err
+	}); r.err != "" {
+		decls = "(error " + q(oneLine(r.err)) + ")"
+	} else {
+		decls = mslDecls(ms)
+	}
+	return out, decls
+}
+
+var hlslStoreRe = regexp.MustCompile(`\bbuf\.(?:Store[234]?|Interlocked\w+)(?:<\w+>)?\(([0-9+* ]+),`)
+
+// hlslOffsets evaluates the constant byte-address expression of every store to `buf`.
+func hlslOffsets(src string, n int) string {
+	var offs []uint32
+	for _, m := range hlslStoreRe.FindAllStringSubmatch(src, -1) {
+		sum := 0
+		for _, term := range strings.Split(m[1], "+") {
+			prod := 1
+			for _, f := range strings.Split(term, "*") {
+				v, err := strconv.Atoi(strings.TrimSpace(f))
+				if err != nil {
+					return "error unparsed address " + q(m[1])
+				}
+				prod *= v
+			}
+			sum += prod
+		}
+		offs = append(offs, uint32(sum))
+	}
+	if len(offs) != n {
+		return fmt.Sprintf("error %d constant-address stores found for %d statements", len(offs), n)
+	}
+	return u32s(offs)
+}
+
+var (
+	mslStructRe  = regexp.MustCompile(`(?s)struct (\w+) \{(.*?)\n\};`)
+	mslFieldRe   = regexp.MustCompile(`^\s*([\w:]+(?:<[\w:, ]+>)?) (\w+)(?:\[(\d+)\])?;$`)
+	mslTypedefRe = regexp.MustCompile(`(?m)^typedef ([\w:]+) (\w+)\[(\d+)\];$`)
+	mslBufRe     = regexp.MustCompile(`device (\w+)& buf\b`)
+)
+
+// mslDecls: the struct/typedef declarations of the MSL text as an S-expression
+// (msl "<type of buf>" (struct name (f ty name len) ...) (typedef name ty len) ...).
+func mslDecls(src string) string {
+	var b strings.Builder
+	top := mslBufRe.FindStringSubmatch(src)
+	if top == nil {
+		return "(error \"no device T& buf parameter\")"
+	}
+	fmt.Fprintf(&b, "(msl %s", q(top[1]))
+	for _, m := range mslStructRe.FindAllStringSubmatch(src, -1) {
+		fmt.Fprintf(&b, " (struct %s", q(m[1]))
+		for _, ln := range strings.Split(m[2], "\n") {
+			ln = strings.TrimSpace(ln)
+			if ln == "" {
+				continue
+			}
+			f := mslFieldRe.FindStringSubmatch(ln)
+			if f == nil {
+				fmt.Fprintf(&b, " (unparsed %s)", q(ln))
+				continue
+			}
+			n := 0
+			if f[3] != "" {
+				n, _ = strconv.Atoi(f[3])
+			}
+			fmt.Fprintf(&b, " (f %s %s %d)", q(f[1]), q(f[2]), n)
+		}
+		b.WriteString(")")
+	}
+	for _, m := range mslTypedefRe.FindAllStringSubmatch(src, -1) {
+		n, _ := strconv.Atoi(m[3])
+		fmt.Fprintf(&b, " (typedef %s %s %d)", q(m[2]), q(m[1]), n)
+	}
+	b.WriteString(")")
+	return b.String()
+}
+
+func c07runIR(m *ir.Module) string {
 	var top ir.TypeHandle
 	found := false
 	for _, gv := range m.GlobalVariables {
@@ -345,6 +515,7 @@ func c07run(src string) string {
 	if !found {
 		return "error lower: no buf variable"
 	}
+	var err error
 	var ird []uint32
 	irDump(m, top, &ird)
 	out := "ir=" + u32s(ird)
